@@ -20,13 +20,14 @@ EXPLANATION = (
     "term classes (parameters() = configure() = constructor order, _parse arity, optional trailing height), "
     "activation/defuzzifier parameter order and conversions, elided lines vs constructor defaults, registration of "
     "every concrete class (constructible without arguments), coverage of every persistent constructor field, rule "
-    "keywords; thorough tier also checks the 61 shipped .fll files against the extracted tables"
+    "keywords; no variable / rule block (classes with __len__) is used as a truth value anywhere in the package (T15); thorough tier also "
+    "checks the 61 shipped .fll files against the extracted tables"
 )
 ASSUMPTIONS = [
     "representability of numbers at settings.decimals and numeric equality after re-import are not decided",
     "identifier names and single-line descriptions without '#' (property precondition)",
 ]
-FLOORS = {"T13": 3, "T14": 6, "T4": 30, "T5": 18, "T6": 23, "T7": 7, "T8": 6, "T9": 50, "T10": 20, "T11": 1}
+FLOORS = {"T15": 2, "T13": 3, "T14": 6, "T4": 30, "T5": 18, "T6": 23, "T7": 7, "T8": 6, "T9": 50, "T10": 20, "T11": 1}
 
 KIND_BY_ANNOTATION = [("bool", "boolean"), ("float", "to_float"), ("SNorm", "snorm"), ("TNorm", "tnorm"),
                       ("Defuzzifier", "defuzzifier"), ("Activation", "activation"), ("str", "raw")]
@@ -64,6 +65,9 @@ def run(check: Check) -> None:
     keywords(check)
     line_syntax(check)
     engine_threading(check)
+    from .common import component_truthiness
+
+    component_truthiness(check, "T15")
     if check.tier == "thorough":
         corpus(check)
     check.exhaustive_parts += ["writer/reader tables compared entry by entry"]
